@@ -283,6 +283,34 @@ def run(ctx):
     ctx.check(not bad and n >= 2, "R13.4", "no-guard-across-blocking-send",
               "no lock guard is live at any call that may block on sending to the command queue (%d such call sites)" % n, detail=str(bad[:3]))
 
+    # ---- R13.6 no lock-order cycle can trap shutdown() or the worker that must answer every command ------------
+    import c18
+    edges, _bug, _n, _i = c18.lock_graph(ctx, record_ok=False)
+    graph = {}
+    for (h, a2), sites in edges.items():
+        graph.setdefault(h, set()).add(a2)
+    involved = set()
+    cyc = c18.find_cycle(graph)
+    selfs = [(h, sites) for (h, a2), sites in edges.items() if h == a2]
+    relevant = set()
+    starts = []
+    for name, f in F.fns.items():
+        if f.calls_to("std::sync::atomic::Atomic::<bool>::compare_exchange", "std::sync::atomic::Atomic::<bool>::swap") and f.rec.get("reachable"):
+            starts += F.insts_of(name)
+    if W is not None:
+        starts += F.insts_of(W.name)
+    for nid in starts:
+        relevant |= {F.def_of(n) for n in F.inst_reach([nid])}
+    bad_cycle = None
+    if cyc:
+        cyc_edges = [(h, a2) for (h, a2) in edges if h in cyc and a2 in cyc and h != a2]
+        if any(s[0].name in relevant for e in cyc_edges for s in edges[e]):
+            bad_cycle = cyc
+    bad_self = [(h, s[0].where(s[1])) for h, sites in selfs for s in sites if s[0].name in relevant]
+    ctx.check(bad_cycle is None and not bad_self, "R13.6", "no-lock-cycle-through-shutdown-or-worker",
+              "no lock-order cycle (or same-class nested acquisition) involves code reachable from shutdown() or from the command worker: otherwise shutdown can hang or pending commands are never answered",
+              detail=("cycle %s" % " -> ".join(bad_cycle) if bad_cycle else "") + (" self %s" % bad_self[:2] if bad_self else ""))
+
     # ---- R13.5 failed send -> Err --------------------------------------------------------------------
     for f, bb, t, m in A.send_sites:
         sres = f.origin_call(bb, t)
